@@ -286,7 +286,7 @@ func c08Universe() []*ct {
 	sh := func(kind string, kids ...*ct) *ct { return &ct{kind: kind, kids: kids} }
 	u := []*ct{
 		nm("/a"), nm("/b"), nm("/a/b"),
-		st("a"), st("b"), st("/a"), st("1"), st("1.0"), st(""), st("[]"), st("a\"b"),
+		st("a"), st("b"), st("/a"), st("1"), st("1.0"), st(""), st("[]"), st("a\"b"), st("\uFFFD"), st("a\uFFFDb"),
 		{kind: "bytes", s: "a"}, {kind: "bytes", s: ""},
 		nu(0), nu(1), nu(2), nu(-1), nu(int64(math.Float64bits(1.0))),
 		fl(0), fl(1), fl(1.5), fl(math.Copysign(0, -1)), fl(-1), fl(1e19),
@@ -319,22 +319,41 @@ func checkC08(c *core.Ctx) {
 	c.Rule(rC08Eval, "functional.EvalApplyFn evaluated on fn:map, fn:struct, fn:list and fn:pair over constant arguments yields the constants the constructors build, keeps distinct keys whose hashes collide, and keeps one entry per repeated key", 1)
 	c.Rule(rC08Atom, "Atom.Equals / Atom.Hash / Atom.String over a universe of atoms: Equals is equality of predicate and arguments, equal atoms hash and print alike, atoms that print alike are equal", 1)
 	c.Rule(rC08Key, "groupKeyString evaluated on key tuples whose printed forms could be confused when merely concatenated: distinct tuples get distinct keys, equal tuples the same key", 1)
-	u := c08Universe()
 	for _, advers := range []bool{false, true} {
+		if !c08Equality(c, advers, true) {
+			return
+		}
+	}
+	c08GroupKey(c)
+}
+
+// c08OrderFnv evaluates the supply-order obligation with the real hash (used by neighbouring properties).
+func c08OrderFnv(c *core.Ctx) {
+	k := newC08Kit(c, rC08Order, false)
+	if k.ok {
+		c08Order(c, k, "fnv")
+	}
+}
+
+// c08Equality evaluates Equals / Hash / String over the universe in one hash mode; withRest adds the obligations
+// that share the kit (supply order, atoms, constructor expressions).
+func c08Equality(c *core.Ctx, advers, withRest bool) bool {
+	u := c08Universe()
+	{
 		mode := "fnv"
 		if advers {
 			mode = "colliding-hash"
 		}
 		k := newC08Kit(c, rC08Eq, advers)
 		if !k.ok {
-			return
+			return false
 		}
 		var vals []*ordabs.Rec
 		for _, t := range u {
 			vals = append(vals, k.build(rC08Eq, t, false))
 		}
 		if !k.ok {
-			return
+			return false
 		}
 		eqBad, hashBad, injBad := "", "", ""
 		pairs := 0
@@ -343,7 +362,7 @@ func checkC08(c *core.Ctx) {
 			for j, b := range vals {
 				got, ok := k.equals(rC08Eq, a, b)
 				if !ok {
-					return
+					return false
 				}
 				pairs++
 				want := u[i].canon() == u[j].canon()
@@ -365,13 +384,15 @@ func checkC08(c *core.Ctx) {
 		if !advers {
 			c.Check(injBad == "", rC08Inj, "ast.Constant.String", k.fn["Constant.String"].Decl.Pos(), fmt.Sprintf("printing is injective on %d constants", len(u)), injBad)
 		}
-		c08Order(c, k, mode)
-		if !advers {
-			c08Atoms(c, k)
+		if withRest {
+			c08Order(c, k, mode)
+			if !advers {
+				c08Atoms(c, k)
+			}
+			c08Eval(c, k, mode)
 		}
-		c08Eval(c, k, mode)
 	}
-	c08GroupKey(c)
+	return true
 }
 
 func c08Order(c *core.Ctx, k *c08Kit, mode string) {
@@ -590,6 +611,8 @@ func c08GroupKey(c *core.Ctx) {
 	tuples := [][]*ct{
 		{st("a"), st("b")}, {st("a\"\"b")}, {st("a|"), st("b")}, {st("a"), st("|b")}, {nu(1), nu(23)}, {nu(12), nu(3)}, {nu(123)},
 		{st("1:a"), st("b")}, {st("a")}, {st("a"), st("")}, {}, {st("")}, {nu(1)}, {{kind: "float", f: 1}}, {st("1")},
+		// texts that differ only by quotes and separators a printed list would contain
+		{{kind: "list", kids: []*ct{st("a"), st("b")}}}, {{kind: "list", kids: []*ct{st("a\", \"b")}}}, {st("a\", \"b")}, {st("a"), st("b\"")}, {st("a\""), st("b")},
 	}
 	keyOf := func(t []*ct) (string, bool) {
 		var es []ordabs.Value
